@@ -141,6 +141,9 @@ def gen_trace(seed, config, tier):
         S = R.choice_w(r_t, [(1, 3), (2, 4), (3, 2)])
         K = R.choice_w(r_t, [(1, 1), (2, 4), (3, 3)])
     sessions = [gen_session(r_in, tier) for _ in range(S)]
+    if S > 1 and r_in.random() < 0.25:
+        # two notebooks opened on the same data: identical ids and coordinates in distinct objects
+        sessions[1] = json.loads(json.dumps(sessions[0]))
     ncalls = r_op.randint(5, 12)
     steps = []
     built = [set() for _ in range(S)]
